@@ -460,6 +460,10 @@ func ExpandApk(ctx context.Context, source io.Reader, cacheDir string) (*APKExpa
 		}
 	}
 
+	if gzi == nil {
+		// Not a single byte of input: there is no gzip stream to close.
+		return nil, fmt.Errorf("expandApk: empty input, no gzip stream found")
+	}
 	if err := gzi.Close(); err != nil {
 		return nil, fmt.Errorf("expandApk error 6: %w", err)
 	}
